@@ -2133,7 +2133,6 @@ func c14StopAborts(p *Program, r *Report) {
 	r.Check(okS, "a stopped system aborts the send", rm.SendLoop.Pos(), "the send closure returns abort=true when the system context is cancelled")
 }
 
-
 // viaRefAccessor: v is the result of the reference accessor of that name (GetAddress / GetPath of the ActorRef API) — the call
 // itself, or, when the concrete accessor was spliced into the graph, the field it returns.
 func (p *Program) viaRefAccessor(lc *lifecycle, v ssa.Value, name string) bool {
